@@ -350,7 +350,7 @@ def main(argv=None):
             "discharged": n_dis,
             "checker_cmd": f"./check {pid} --tier {tier}",
             "trusted_base": propmod.trusted_base(pid),
-            "backends": "z3 %s (python API), cvc5 1.0.3 for z3-unknowns, FST/FIN where listed" % _z3v(),
+            "backends": "z3 %s (python API), cvc5 1.0.3 for z3-unknowns, ground instantiation for quantified contexts" % _z3v(),
             "solver_s": round(solver_s, 2),
             "functions_under_contract": per_unit,
             "must_fail_canaries_refuted": n_canary,
@@ -399,4 +399,14 @@ def _z3v():
 
 
 if __name__ == "__main__":
-    sys.exit(main())
+    # a crash of the checker (a contract module that does not import, an engine bug) is exit 3,
+    # never exit 1: an uncaught Python exception would otherwise look like a violation
+    try:
+        rc = main()
+    except SystemExit:
+        raise
+    except BaseException:  # noqa: BLE001
+        traceback.print_exc()
+        print("CHECKER-ERROR the checker itself crashed (traceback above); no verdict")
+        rc = 3
+    sys.exit(rc)
